@@ -12,7 +12,7 @@ From mathcomp Require Import all_ssreflect all_fingroup all_algebra.
 From mathcomp Require Import mxtens.
 Require Import C05.ModelBase C05.ModelCG C05.Model.
 Require Import C05.ProofsAlg C05.ProofsLog C05.ProofsBridge C05.ProofsLRRAD C05.ProofsKron C05.ProofsConv.
-Require Import C05.ModelLayout C05.ProofsLayout C05.ProofsBlockQuad C05.ProofsCache.
+Require Import C05.ModelLayout C05.ProofsLayout C05.ProofsBlockQuad C05.ProofsCache C05.ProofsExpand.
 Set Implicit Arguments. Unset Strict Implicit. Unset Printing Implicit Defensive.
 Import GRing.Theory Num.Theory.
 Local Open Scope ring_scope.
@@ -537,6 +537,28 @@ Theorem C05_bblock_inv_quad_denotation : forall (F : Type) (A : Arith F) (q : na
   nth (a0 A) (block_iq_vals A k t (size Rs) d) (g * t + j)
   = sumn_ A (fun i => q (g * k + i) ((if il then rows_inter A else rows_block A) k m i (nth [::] (nth [::] Rs g) j))) k.
 Proof. exact bblock_inv_quad_denotation. Qed.
+
+(* Batch expansion (LinearOperator.expand / _expand_batch, explicit or implicit as a factor of a Kronecker product / summand /
+   block next to a batched operand) of a leaf batch, any rank: member o of the expanded batch is the SAME operator - class,
+   Cholesky orientation flag and data - as base member (o mod base batch shape); hence it denotes the same matrix, for the
+   lower (L L^T) and the upper (R^T R) orientation alike.  This is CholLinearOperator._expand_batch, which forwards
+   upper=self.upper; the case shards build expanded batches with this function. *)
+Theorem C05_expand_preserves_members : forall (F : Type) (rep pb : seq nat) (ms : seq (op F)) (o : nat),
+  o < prodn (repeat_obs rep pb) ->
+  nth (Ident 0) (chol_expand_batch rep pb ms) o = nth (Ident 0) ms (repeat_bf rep pb o).
+Proof. exact chol_expand_nth. Qed.
+
+Theorem C05_expand_preserves_dense : forall (F : Type) (A : Arith F) (rep pb : seq nat) (ms : seq (op F)) (o : nat),
+  o < prodn (repeat_obs rep pb) ->
+  dense_of A (nth (Ident 0) (chol_expand_batch rep pb ms) o) = dense_of A (nth (Ident 0) ms (repeat_bf rep pb o)).
+Proof. exact chol_expand_dense. Qed.
+
+(* the inherited RootLinearOperator._expand_batch (no upper keyword: seeded regression C05/9) does NOT: an upper factor
+   R = [[1,1],[0,1]] expanded to a batch of three denotes R R^T (entry (0,0) = 2) instead of R^T R (entry (0,0) = 1) *)
+Theorem C05_root_expand_refuted : forall (F : rcfType) (ln : F -> F),
+  mget (ArR ln) (dense_of (ArR ln) (nth (Ident 0) (root_expand_batch [:: 3] [:: 1] [:: Chol true 2 (Rex F)]) 1)) 0 0
+  != mget (ArR ln) (dense_of (ArR ln) (nth (Ident 0) (chol_expand_batch [:: 3] [:: 1] [:: Chol true 2 (Rex F)]) 1)) 0 0.
+Proof. exact root_expand_refuted. Qed.
 
 (* The regression seeded as C05/1 (all repeat dimensions in front of all base batch dimensions) in this model: identical to
    the code's layout for ONE batch dimension (everything the repo's tests exercise), different for two. *)
